@@ -1,11 +1,21 @@
 /-
   C17 — the path-syntax parser is total, protocol-safe and round-trips printed paths.
 
-  All statements are about `Lyon.Parser.parseWith` (`Model/Parser.lean`), the function the
+  All statements are about `Lyon.Parser.parse` (`Model/Parser.lean`), the function the
   correspondence check runs against `lyon_extra::parser::PathParser::parse` on every run
-  (`Drive/C17.lean`, `harness/src/bin/c17.rs`).  `parse` is the parser as it is
-  (`need_start` starts `false`), `parseFixed` the parser with the proposed one-line fix
-  (`need_start` starts `true`, `fixes/C17-need-start.patch`).
+  (`Drive/C17.lean`, `harness/src/bin/c17.rs`).  The model mirrors the code after the two
+  repairs made for this property:
+
+  * 00996849 "fix: path parser rejects drawing commands before the first move-to"
+    (`need_start` starts `true`; the `need_start` test rejects the drawing/close letters).
+    Before it the model had the witnesses (proved by `decide`, now gone with the old code):
+    `L 1 1` → Ok with trace `[line]`, `Z` → Ok with `[end(true)]`, `H 3` → Ok with `[line]`
+    (calls outside any sub-path), and with one attribute `A1 1 0 0 0 5 5 7` → panic
+    (`prev_attributes[0]` on an empty buffer); the nesting / no-panic / missing-move-to
+    theorems were only provable as `_partial`.
+  * c7c34442 "fix: parser Source resets the column when the input starts with a newline".
+    Before it `"\nx"` reported column 1 and `position_tracks` needed the exception "a newline
+    at index 0 does not reset the column".
 
   The theorems quantify over EVERY input `List Char`, every attribute count, every stop
   character and every instance `N : Num ν` of the numeric parameters (value of a lexeme, `+`, `-`,
@@ -24,12 +34,12 @@ variable {ν : Type}
 
 /-! ### Totality -/
 
-/-- `parse_total`: the loop fuel `length + 1` supplied by `parseWith` never runs out — every
+/-- `parse_total`: the loop fuel `length + 1` supplied by `parse` never runs out — every
 iteration of the command loop consumes a character or returns.  (The model function itself is
 total by structural recursion; this says its "out of fuel" outcome is unreachable.) -/
-theorem parse_total (fix : Bool) (N : Num ν) (na : Nat) (stop : Option Char)
-    (inp : List Char) : (parseWith fix N na stop inp).outcome ≠ .stuck := by
-  unfold parseWith
+theorem parse_total (N : Num ν) (na : Nat) (stop : Option Char) (inp : List Char) :
+    (parse N na stop inp).outcome ≠ .stuck := by
+  unfold parse
   apply loop_not_stuck
   · have := skipWs_len_le (Src.new inp)
     simp only [Src.len, Src.new] at this ⊢
@@ -37,35 +47,23 @@ theorem parse_total (fix : Bool) (N : Num ν) (na : Nat) (stop : Option Char)
   · simp [St.init]
   · simp [St.init]
 
-/-- No panic, fixed parser: if the arc conversion of `lyon_geom` does not panic, neither does
-the parser. -/
-theorem parse_no_panic_fixed (N : Num ν) (na : Nat) (stop : Option Char) (inp : List Char)
-    (harc : ∀ pos a, N.arc pos a ≠ none) : (parseFixed N na stop inp).outcome ≠ .panic := by
-  unfold parseFixed parseWith
-  apply loop_no_panic _ N na stop harc
+/-- `parse_no_panic`: if the arc conversion of `lyon_geom` does not panic, neither does the
+parser — for every input, attribute count and stop character. -/
+theorem parse_no_panic (N : Num ν) (na : Nat) (stop : Option Char) (inp : List Char)
+    (harc : ∀ pos a, N.arc pos a ≠ none) : (parse N na stop inp).outcome ≠ .panic := by
+  unfold parse
+  apply loop_no_panic N na stop harc
   · simp [St.init]
   · simp [St.init]
   · right; intro h; simp [St.init] at h
 
-/-- No panic, current code, PARTIAL: only without custom attributes.  With attributes an arc
-before the first move-to indexes an empty `prev_attributes` (`parse_no_panic_witness`). -/
-theorem parse_no_panic_partial (N : Num ν) (stop : Option Char) (inp : List Char)
-    (harc : ∀ pos a, N.arc pos a ≠ none) : (parse N 0 stop inp).outcome ≠ .panic := by
-  unfold parse parseWith
-  apply loop_no_panic _ N 0 stop harc
-  · simp [St.init]
-  · simp [St.init]
-  · left; rfl
-
-/-- `parse_result_shape` (result part): the parser returns `Ok` or `Err` (given the arc
-conversion does not panic). -/
+/-- `parse_result_shape` (result part): the parser returns `Ok` or `Err`. -/
 theorem parse_result_shape (N : Num ν) (na : Nat) (stop : Option Char) (inp : List Char)
-    (harc : ∀ pos a, N.arc pos a ≠ none) : (parseFixed N na stop inp).closed := by
-  have h1 := parse_total true N na stop inp
-  have h2 := parse_no_panic_fixed N na stop inp harc
-  unfold parseFixed at h2 ⊢
+    (harc : ∀ pos a, N.arc pos a ≠ none) : (parse N na stop inp).closed := by
+  have h1 := parse_total N na stop inp
+  have h2 := parse_no_panic N na stop inp harc
   unfold Result.closed
-  cases h : (parseWith true N na stop inp).outcome with
+  cases h : (parse N na stop inp).outcome with
   | ok => exact Or.inl rfl
   | err e => exact Or.inr ⟨e, rfl⟩
   | panic => exact absurd h h2
@@ -73,30 +71,29 @@ theorem parse_result_shape (N : Num ν) (na : Nat) (stop : Option Char) (inp : L
 
 /-! ### Error positions -/
 
-/-- `parse_result_shape` (position part): an error carries the `line`/`col` the source had after
-some number `n` of `advance_one` steps from `Source::new(input)` — i.e. the position of the
-`n`-th character (the offending token's first character, or the last character at end of input).
-`position_tracks` below says what these two numbers are. -/
-theorem parse_error_position (fix : Bool) (N : Num ν) (na : Nat) (stop : Option Char)
-    (inp : List Char) (e : Err) (h : (parseWith fix N na stop inp).outcome = .err e) :
+/-- `parse_error_position`: an error carries the `line`/`col` the source had after some number
+`n` of `advance_one` steps from `Source::new(input)` — i.e. the position of the `n`-th character
+(the offending token's first character, or the last character at end of input).
+`position_tracks` says what these two numbers are. -/
+theorem parse_error_position (N : Num ν) (na : Nat) (stop : Option Char)
+    (inp : List Char) (e : Err) (h : (parse N na stop inp).outcome = .err e) :
     ∃ n, e.line = (advN n (Src.new inp)).line ∧ e.col = (advN n (Src.new inp)).col := by
-  unfold parseWith at h
+  unfold parse at h
   obtain ⟨t, ⟨n, rfl⟩, hl, hc⟩ :=
-    ErrAt.mono (skipWs_reach (Src.new inp)) ((loop_pos fix N na stop _ _ _).2 e h)
+    ErrAt.mono (skipWs_reach (Src.new inp)) ((loop_pos N na stop _ _ _).2 e h)
   exact ⟨n, hl, hc⟩
 
 /-- `position_tracks`: after `n` steps (`n < length`) the source stands on character `n`;
 `line` = number of newlines among characters `0..n` (inclusive);
-`col` = `n` if no newline occurs at an index in `1..n`, and `t - 1` if the last newline at an
-index ≥ 1 is followed by `t` further characters up to `n` (so the newline itself has column -1 and
-the character after it column 0).  A newline at index 0 does NOT reset the column — the
-`leading-newline` finding. -/
+`col`  = offset since the last newline: `n` if characters `0..n` contain no newline, and `t - 1`
+if the last newline, at index `j`, is followed by `t` further characters up to `n = j + t`
+(the newline itself has column -1, the character after it column 0). -/
 theorem position_tracks (inp : List Char) (n : Nat) (hn : n < inp.length) :
     (advN n (Src.new inp)).inp = inp.drop n ∧
     (advN n (Src.new inp)).line = nlCount (inp.take (n + 1)) ∧
-    ((∀ c ∈ inp.tail.take n, c ≠ '\n') → (advN n (Src.new inp)).col = n) ∧
-    (∀ j t, j + 1 + t = n → (inp.drop (j + 1)).head? = some '\n' →
-      (∀ c ∈ (inp.drop (j + 2)).take t, c ≠ '\n') →
+    ((∀ c ∈ inp.take (n + 1), c ≠ '\n') → (advN n (Src.new inp)).col = n) ∧
+    (∀ j t, j + t = n → (inp.drop j).head? = some '\n' →
+      (∀ c ∈ (inp.drop (j + 1)).take t, c ≠ '\n') →
       (advN n (Src.new inp)).col = (t : Int) - 1) := by
   have hlen : n < (Src.new inp).inp.length := hn
   refine ⟨by simp [advN_inp, Src.new], ?_, ?_, ?_⟩
@@ -104,28 +101,48 @@ theorem position_tracks (inp : List Char) (n : Nat) (hn : n < inp.length) :
     simp only [Src.new, nextLine_eq, nlCount_take_succ inp n]
     omega
   · intro h
-    rw [advN_col_plain n _ hlen h]; simp [Src.new]
+    cases inp with
+    | nil => simp at hn
+    | cons c r =>
+      have hc : c ≠ '\n' := h c (by simp)
+      rw [advN_col_plain n _ hlen (by
+        intro x hx; apply h x
+        simp only [Src.new, List.tail_cons] at hx
+        simp only [List.take_succ_cons]; exact List.mem_cons_of_mem _ hx)]
+      simp [Src.new, startCol, hc]
   · intro j t hjt hnl hrest
     subst hjt
-    rw [advN_add]
-    have hj : j < inp.length := by omega
-    have hdj : (advN j (Src.new inp)).inp = inp.drop j := by simp [advN_inp, Src.new]
-    have hj1 : j + 1 < inp.length := by omega
-    have e1 : inp.drop j = inp[j] :: inp.drop (j + 1) := List.drop_eq_getElem_cons hj
-    have e2 : inp.drop (j + 1) = '\n' :: inp.drop (j + 2) := by
-      have := List.drop_eq_getElem_cons hj1
-      rw [this] at hnl ⊢
-      simp only [List.head?_cons, Option.some.injEq] at hnl
-      rw [hnl]
-    have hs1 : (advN (j + 1) (Src.new inp)) = (advN j (Src.new inp)).adv := by
-      rw [advN_add j 1]; rfl
-    have hcol : (advN (j + 1) (Src.new inp)).col = -1 := by
-      rw [hs1]; exact adv_col_newline _ inp[j] (inp.drop (j + 2)) (by rw [hdj, e1, e2])
-    have hinp : (advN (j + 1) (Src.new inp)).inp = '\n' :: inp.drop (j + 2) := by
-      rw [advN_inp]; simpa [Src.new] using e2
-    have hlt : t < (advN (j + 1) (Src.new inp)).inp.length := by
-      rw [hinp]; simp; omega
-    rw [advN_col_plain t _ hlt (by rw [hinp]; exact hrest), hcol]; omega
+    cases j with
+    | zero =>
+      cases inp with
+      | nil => simp at hn
+      | cons c r =>
+        simp only [List.drop_zero, List.head?_cons, Option.some.injEq] at hnl
+        subst hnl
+        simp only [Nat.zero_add] at hrest hlen ⊢
+        rw [advN_col_plain t _ hlen (by simpa [Src.new] using hrest)]
+        simp only [Src.new, startCol, beq_self_eq_true, if_true]
+        omega
+    | succ j =>
+      rw [show j + 1 + t = (j + 1) + t from rfl, advN_add]
+      have hj : j < inp.length := by omega
+      have hdj : (advN j (Src.new inp)).inp = inp.drop j := by simp [advN_inp, Src.new]
+      have hj1 : j + 1 < inp.length := by omega
+      have e1 : inp.drop j = inp[j] :: inp.drop (j + 1) := List.drop_eq_getElem_cons hj
+      have e2 : inp.drop (j + 1) = '\n' :: inp.drop (j + 2) := by
+        have := List.drop_eq_getElem_cons hj1
+        rw [this] at hnl ⊢
+        simp only [List.head?_cons, Option.some.injEq] at hnl
+        rw [hnl]
+      have hs1 : (advN (j + 1) (Src.new inp)) = (advN j (Src.new inp)).adv := by
+        rw [advN_add j 1]; rfl
+      have hcol : (advN (j + 1) (Src.new inp)).col = -1 := by
+        rw [hs1]; exact adv_col_newline _ inp[j] (inp.drop (j + 2)) (by rw [hdj, e1, e2])
+      have hinp : (advN (j + 1) (Src.new inp)).inp = '\n' :: inp.drop (j + 2) := by
+        rw [advN_inp]; simpa [Src.new] using e2
+      have hlt : t < (advN (j + 1) (Src.new inp)).inp.length := by
+        rw [hinp]; simp; omega
+      rw [advN_col_plain t _ hlt (by rw [hinp]; exact hrest), hcol]; omega
 
 /-- once the input is exhausted the position no longer changes: errors at end of input carry
 the position of the last character -/
@@ -147,60 +164,46 @@ theorem position_at_end (s : Src) (k : Nat) (h : s.inp.length ≤ 1) :
 
 /-! ### Protocol safety -/
 
-/-- `parse_trace_wellnested` for the FIXED parser: for every input string — success or error —
-the calls sent to the builder are `(begin edge* end)*`. -/
-theorem parse_trace_wellnested_fixed (N : Num ν) (na : Nat) (stop : Option Char)
-    (inp : List Char) (hc : (parseFixed N na stop inp).closed) :
-    WellNested (parseFixed N na stop inp).trace := by
-  unfold parseFixed parseWith at hc ⊢
-  obtain ⟨b, hb, hcl⟩ := loop_nest _ N na stop (inp.length + 1) (St.init N true)
+/-- `parse_trace_wellnested`: for every input string — success or error — the calls sent to
+the builder, including the clean-up `end(false)`, are `(begin edge* end)*`. -/
+theorem parse_trace_wellnested (N : Num ν) (na : Nat) (stop : Option Char)
+    (inp : List Char) (hc : (parse N na stop inp).closed) :
+    WellNested (parse N na stop inp).trace := by
+  unfold parse at hc ⊢
+  obtain ⟨b, hb, hcl⟩ := loop_nest N na stop (inp.length + 1) (St.init N)
     (Src.new inp).skipWs (Or.inr rfl) (by simp [St.init]) (by simp [St.init])
   rw [hcl hc] at hb
   exact (wellNestedFrom_iff_nestState _ _).2 hb
 
-/-- Prefix safety (fixed parser), also when the arc conversion panics: no call is ever out of
-place. -/
-theorem parse_trace_prefix_safe_fixed (N : Num ν) (na : Nat) (stop : Option Char)
-    (inp : List Char) : ∃ b, nestState false (parseFixed N na stop inp).trace = some b := by
-  unfold parseFixed parseWith
-  obtain ⟨b, hb, _⟩ := loop_nest _ N na stop (inp.length + 1) (St.init N true)
+/-- `parse_trace_prefix_safe`: no call is ever out of place — also should the arc conversion
+panic (no hypothesis on `N`). -/
+theorem parse_trace_prefix_safe (N : Num ν) (na : Nat) (stop : Option Char)
+    (inp : List Char) : ∃ b, nestState false (parse N na stop inp).trace = some b := by
+  unfold parse
+  obtain ⟨b, hb, _⟩ := loop_nest N na stop (inp.length + 1) (St.init N)
     (Src.new inp).skipWs (Or.inr rfl) (by simp [St.init]) (by simp [St.init])
   exact ⟨b, hb⟩
 
-/-- `parse_trace_wellnested` for the CURRENT code, PARTIAL: the calls are well nested provided
-the first call (if any) is a `begin`.  What is missing: inputs whose first command is a drawing
-or close command — those are accepted and their calls are issued outside any sub-path
-(`parse_trace_wellnested_witness`). -/
-theorem parse_trace_wellnested_partial (N : Num ν) (na : Nat) (stop : Option Char)
-    (inp : List Char) (hc : (parse N na stop inp).closed)
-    (hstart : startsOk (parse N na stop inp).trace) :
-    WellNested (parse N na stop inp).trace := by
-  unfold parse parseWith at hc hstart ⊢
-  obtain ⟨b, hb, hcl⟩ := loop_nest_start _ N na stop (inp.length + 1) (St.init N false)
-    (Src.new inp).skipWs rfl (by simp [St.init]) (by simp [St.init]) hstart
-  rw [hcl hc] at hb
-  exact (wellNestedFrom_iff_nestState _ _).2 hb
-
 /-! ### Path data must start with a move-to -/
 
-/-- `missing_move_to` for the FIXED parser: if the first character that is not a separator is an
-ASCII letter other than `m`/`M` (and not the stop character), the input is rejected — with
-`MissingMoveTo` for a drawing/close command, `Command` for an unknown letter — and the builder
-has not been called at all. -/
-theorem missing_move_to_fixed (N : Num ν) (na : Nat) (stop : Option Char) (inp : List Char)
+/-- `missing_move_to`: if the first character that is not a separator is an ASCII letter other
+than `m`/`M` (and not the stop character), the input is rejected — with `MissingMoveTo` for a
+drawing/close command, `Command` for an unknown letter, at that character's position — and the
+builder has not been called at all. -/
+theorem missing_move_to (N : Num ν) (na : Nat) (stop : Option Char) (inp : List Char)
     (hne : (Src.new inp).skipWs.inp ≠ [])
     (hstop : stop ≠ some (Src.new inp).skipWs.cur)
     (halpha : (Src.new inp).skipWs.cur.isAlpha = true)
     (hm : (Src.new inp).skipWs.cur ≠ 'm') (hM : (Src.new inp).skipWs.cur ≠ 'M') :
-    (parseFixed N na stop inp).trace = [] ∧
-    ((parseFixed N na stop inp).outcome =
+    (parse N na stop inp).trace = [] ∧
+    ((parse N na stop inp).outcome =
         .err (.missingMoveTo (Src.new inp).skipWs.cur (Src.new inp).skipWs.line
           (Src.new inp).skipWs.col) ∨
-     (parseFixed N na stop inp).outcome =
+     (parse N na stop inp).outcome =
         .err (.command (Src.new inp).skipWs.cur (Src.new inp).skipWs.line
           (Src.new inp).skipWs.col)) := by
   generalize hs : (Src.new inp).skipWs = s at *
-  unfold parseFixed parseWith
+  unfold parse
   rw [hs, loop_succ]
   have hf : s.fin = false := by
     cases h : s.inp with
@@ -211,16 +214,16 @@ theorem missing_move_to_fixed (N : Num ν) (na : Nat) (stop : Option Char) (inp 
     · rfl
     · exact absurd (by simpa using h) hstop
   simp only [hf, hst, Bool.false_eq_true, if_false]
-  have hcmd : cmdOf (St.init N true) s = s.cur := by simp [cmdOf, halpha]
+  have hcmd : cmdOf (St.init N) s = s.cur := by simp [cmdOf, halpha]
   unfold step
   rw [hcmd]
   by_cases hd : isDrawingCmd s.cur = true
-  · simp [St.init, needStartBlocks, hd, Result.trace, closing]
-  · have hblk : needStartBlocks true s.cur = false := by simp [needStartBlocks, hd]
+  · simp [St.init, hd, Result.trace, closing]
+  · have hblk : isDrawingCmd s.cur = false := by simpa using hd
     simp only [hblk, Bool.and_false, Bool.false_eq_true, if_false]
     unfold dispatchCmd
-    have hnone : edgeCmd N na s.cur (St.init N true) = none := by
-      cases he : edgeCmd N na s.cur (St.init N true) with
+    have hnone : edgeCmd N na s.cur (St.init N) = none := by
+      cases he : edgeCmd N na s.cur (St.init N) with
       | none => rfl
       | some m => exact absurd (edgeCmd_drawing N na _ _ m he) hd
     have ha : (s.cur == 'a' || s.cur == 'A') = false := by
@@ -237,16 +240,58 @@ theorem missing_move_to_fixed (N : Num ν) (na : Nat) (stop : Option Char) (inp 
     rw [hnone]
     simp [ha, hz, hmm, St.init, Result.trace, closing]
 
-/-- `missing_move_to`, CURRENT code, PARTIAL: once a sub-path has been closed (`need_start`
-set by `Z`), anything but a move-to is rejected with `MissingMoveTo` at the command's position.
-What is missing: the same at the start of the input (`missing_move_to_witness`). -/
-theorem missing_move_to_partial (N : Num ν) (na : Nat) (st : St ν) (s : Src)
-    (hns : st.needStart = true) (hm : cmdOf st s ≠ 'm') (hM : cmdOf st s ≠ 'M') :
-    step false N na st s =
+/-- the same inside the path: once a sub-path has been closed, a drawing/close command is
+rejected with `MissingMoveTo` at the command's position -/
+theorem missing_move_to_after_close (N : Num ν) (na : Nat) (st : St ν) (s : Src)
+    (hns : st.needStart = true) (hd : isDrawingCmd (cmdOf st s) = true) :
+    step N na st s =
       .fail (.missingMoveTo (cmdOf st s) s.line s.col) st.needEnd (afterCmd s) [] := by
-  simp [step, needStartBlocks, hns, hm, hM]
+  simp [step, hns, hd]
 
-/-! ### Witnesses on the model (current code) -/
+/-! ### Round trip -/
+
+/-- `print_parse_roundtrip`: take any stored path — represented by the well-nested builder calls
+that created it, every endpoint carrying `na` custom attributes — print it as
+`impl Debug for PathSlice` does (`printCalls`, the text between the quotes) and parse the text
+with `na` attributes: the parser succeeds and sends exactly the same calls (same points, same
+attributes, same `close` flags) to the output builder.
+
+Hypothesis `PrintOK` on the number printer `pn`: a printed number is accepted by
+`f32::from_str`, reads back as the same value, does not start with a separator, and is a single
+lexer token when followed by a space or the end of the text.  `printOK_of_debug_shape` discharges
+all of it except the value law for every printer whose output has the shape
+`-? D+ (. D+)? (e -? D+)?`. -/
+theorem print_parse_roundtrip (N : Num ν) (pn : ν → List Char) (hp : PrintOK N pn) (na : Nat)
+    (tr : List (PCall ν)) (hwn : WellNested tr) (hal : AttrsLen na tr) :
+    (parse N na none (printCalls pn tr)).trace = tr ∧
+    (parse N na none (printCalls pn tr)).outcome = .ok := by
+  have h := loop_roundtrip N pn hp na tr false hwn hal ((printCalls pn tr).length + 1)
+    (St.init N) (Src.new (printCalls pn tr)) rfl (by simp [Src.new])
+    (fun h => by cases h) (fun h => ⟨rfl, rfl⟩)
+  simpa [parse, St.init] using h
+
+/-- `printOK_of_debug_shape`: what `<f32 as Debug>::fmt` prints for a finite value is
+`-? D+ . D+` or `-? D (. D+)? e -? D+` (checked on every printed number by the harness' oracle
+clause `roundtrip/debug-shape`); every text of the more general shape
+`-? D+ (. D+)? (e -? D+)?` (ASCII digits) is accepted by `f32::from_str`, does not start with a
+separator and is exactly one lexer token before a space or the end of the text.  So the only
+thing the round trip assumes about the printer beyond its shape is
+`parseNum (printNum x) = x`. -/
+theorem printOK_of_debug_shape (N : Num ν) (pn : ν → List Char)
+    (hshape : ∀ x, ∃ neg d1 f e, pn x = debugText neg d1 f e ∧ ShapeOK d1 f e)
+    (hval : ∀ x, N.ofLexeme (pn x) = x) : PrintOK N pn :=
+  printOK_of_debugShape N pn hshape hval
+
+/-- the round trip with the shape hypothesis instead of `PrintOK` -/
+theorem print_parse_roundtrip_debug_shape (N : Num ν) (pn : ν → List Char)
+    (hshape : ∀ x, ∃ neg d1 f e, pn x = debugText neg d1 f e ∧ ShapeOK d1 f e)
+    (hval : ∀ x, N.ofLexeme (pn x) = x) (na : Nat)
+    (tr : List (PCall ν)) (hwn : WellNested tr) (hal : AttrsLen na tr) :
+    (parse N na none (printCalls pn tr)).trace = tr ∧
+    (parse N na none (printCalls pn tr)).outcome = .ok :=
+  print_parse_roundtrip N pn (printOK_of_debug_shape N pn hshape hval) na tr hwn hal
+
+/-! ### Non-vacuity -/
 
 /-- a trivial numeric instance: all values are `()`; every arc is one quadratic segment -/
 def unitNum : Num Unit where
@@ -257,42 +302,69 @@ def unitNum : Num Unit where
   arcStraight := fun _ => false
   arc := fun _ a => some [(((), ()), ((), ()), a.attrs)]
 
-/-- `L 1 1` is accepted and sends a `line_to` outside any sub-path. -/
-theorem parse_trace_wellnested_witness :
-    (parse unitNum 0 none ['L', ' ', '1', ' ', '1']).outcome = .ok ∧
-    (parse unitNum 0 none ['L', ' ', '1', ' ', '1']).trace = [.line ((), ()) []] ∧
-    ¬ WellNested (parse unitNum 0 none ['L', ' ', '1', ' ', '1']).trace := by
+/-- the arc hypothesis of `parse_no_panic` holds for `unitNum` -/
+example : ∀ pos a, unitNum.arc pos a ≠ none := by intro pos a; simp [unitNum]
+
+/-- the former defect witnesses are now rejected without any builder call -/
+example : (parse unitNum 0 none ['L', ' ', '1', ' ', '1']).outcome =
+      .err (.missingMoveTo 'L' 0 0) ∧
+    (parse unitNum 0 none ['L', ' ', '1', ' ', '1']).trace = [] ∧
+    (parse unitNum 0 none ['Z']).outcome = .err (.missingMoveTo 'Z' 0 0) ∧
+    (parse unitNum 0 none ['H', ' ', '3']).outcome = .err (.missingMoveTo 'H' 0 0) ∧
+    (parse unitNum 1 none "A1 1 0 0 0 5 5 7".toList).outcome = .err (.missingMoveTo 'A' 0 0) ∧
+    (parse unitNum 0 none ['\n', 'x']).outcome = .err (.command 'x' 1 0) := by
   decide
 
-/-- `Z` and `H 3` as well. -/
-theorem missing_move_to_witness :
-    (parse unitNum 0 none ['Z']).outcome = .ok ∧
-    (parse unitNum 0 none ['Z']).trace = [.end_ true] ∧
-    (parse unitNum 0 none ['H', ' ', '3']).outcome = .ok ∧
-    (parse unitNum 0 none ['H', ' ', '3']).trace = [.line ((), ()) []] := by
-  decide
-
-/-- With one custom attribute, an arc before any move-to panics (index out of bounds). -/
-theorem parse_no_panic_witness :
-    (parse unitNum 1 none "A1 1 0 0 0 5 5 7".toList).outcome = .panic := by
-  decide
-
-/-- non-vacuity of `missing_move_to_fixed`: `" L 1 1"` satisfies its hypotheses -/
+/-- `missing_move_to`: `" L 1 1"` satisfies its hypotheses -/
 example : (Src.new [' ', 'L', ' ', '1', ' ', '1']).skipWs.inp ≠ [] ∧
     (Src.new [' ', 'L', ' ', '1', ' ', '1']).skipWs.cur.isAlpha = true ∧
     (Src.new [' ', 'L', ' ', '1', ' ', '1']).skipWs.cur ≠ 'm' := by decide
 
-/-- non-vacuity of the `closed` / `startsOk` hypotheses: `"M 0 0 L 1 1 Z"` -/
-example : (parse unitNum 0 none "M 0 0 L 1 1 Z".toList).closed ∧
-    startsOk (parse unitNum 0 none "M 0 0 L 1 1 Z".toList).trace ∧
-    (parse unitNum 0 none "M 0 0 L 1 1 Z".toList).trace =
-      [.begin ((), ()) [], .line ((), ()) [], .end_ true] := by
-  refine ⟨Or.inl (by decide), ?_, by decide⟩
-  have : (parse unitNum 0 none "M 0 0 L 1 1 Z".toList).trace =
-      [.begin ((), ()) [], .line ((), ()) [], .end_ true] := by decide
-  rw [this]; trivial
+/-- a successful parse with its trace; an error with an open sub-path is closed by the clean-up -/
+example : (parse unitNum 0 none "M 0 0 L 1 1 Z".toList).trace =
+      [.begin ((), ()) [], .line ((), ()) [], .end_ true] ∧
+    (parse unitNum 0 none "M 0 0 L 1 x".toList).trace = [.begin ((), ()) [], .end_ false] ∧
+    (parse unitNum 0 none "M 0 0 L 1 x".toList).outcome = .err (.number [] 0 10) := by
+  decide
 
-/-- the arc hypothesis of the no-panic theorems holds for `unitNum` -/
-example : ∀ pos a, unitNum.arc pos a ≠ none := by intro pos a; simp [unitNum]
+/-- a two-valued number type whose printer has the `{:?}` shapes: `true ↦ "1.5"`,
+`false ↦ "-2e-7"` -/
+def boolNum : Num Bool where
+  zero := false
+  add := fun a _ => a
+  sub := fun a _ => a
+  ofLexeme := fun l => l == ['1', '.', '5']
+  arcStraight := fun _ => true
+  arc := fun _ _ => some []
+
+def boolPrint : Bool → List Char
+  | true => ['1', '.', '5']
+  | false => ['-', '2', 'e', '-', '7']
+
+/-- the hypotheses of `printOK_of_debug_shape` / `print_parse_roundtrip_debug_shape` hold for it -/
+theorem printOK_example : PrintOK boolNum boolPrint := by
+  apply printOK_of_debug_shape
+  · intro x
+    cases x
+    · refine ⟨true, ['2'], none, some (true, ['7']), rfl, ⟨⟨by simp, by decide⟩, ?_, ?_⟩⟩
+      · intro d h; cases h
+      · intro n d h; cases h; exact ⟨by simp, by decide⟩
+    · refine ⟨false, ['1'], some ['5'], none, rfl, ⟨⟨by simp, by decide⟩, ?_, ?_⟩⟩
+      · intro d h; cases h; exact ⟨by simp, by decide⟩
+      · intro n d h; cases h
+  · intro x; cases x <;> decide
+
+/-- `print_parse_roundtrip`: a path with two sub-paths and one attribute satisfies its
+hypotheses -/
+example : WellNested ([.begin (true, false) [true], .line (false, false) [false], .end_ false,
+      .begin (true, true) [false], .quad (false, true) (true, true) [true], .end_ true] :
+      List (PCall Bool)) ∧
+    AttrsLen 1 ([.begin (true, false) [true], .line (false, false) [false], .end_ false,
+      .begin (true, true) [false], .quad (false, true) (true, true) [true], .end_ true] :
+      List (PCall Bool)) := by
+  refine ⟨by decide, ?_⟩
+  intro c hc
+  simp only [List.mem_cons, List.mem_nil_iff, or_false] at hc
+  rcases hc with rfl | rfl | rfl | rfl | rfl | rfl <;> simp [callAttrsOK]
 
 end Lyon.C17
